@@ -256,20 +256,8 @@ func (s *Sched) Collect() []*Pending {
 	defer s.mu.Unlock()
 	var out []*Pending
 	for _, p := range s.pending {
-		if p.Kind == "lock" && s.held[p.Lock] {
+		if !s.enabledLocked(p) {
 			continue
-		}
-		if p.Kind == "lock" && p.LockKind == "cache" {
-			busy := false
-			for l := range s.held {
-				if s.segCache[l] == p.Lock {
-					busy = true
-					break
-				}
-			}
-			if busy {
-				continue
-			}
 		}
 		out = append(out, p)
 	}
@@ -281,6 +269,61 @@ func (s *Sched) Collect() []*Pending {
 	})
 	return out
 }
+
+// enabledLocked reports whether p may be released now. Lock requests are
+// enabled only while the lock is free; the cache lock only while no segment of
+// that cache is held (pruneMaxRead locks every segment while holding it), and
+// a segment lock only while its cache lock is free (the latter can only be
+// observed in burst mode, where several events are released together).
+func (s *Sched) enabledLocked(p *Pending) bool {
+	if p.Kind != "lock" {
+		return true
+	}
+	if s.held[p.Lock] {
+		return false
+	}
+	if p.LockKind == "cache" {
+		for l := range s.held {
+			if s.segCache[l] == p.Lock {
+				return false
+			}
+		}
+	}
+	if c, ok := s.segCache[p.Lock]; ok && s.held[c] {
+		return false
+	}
+	return true
+}
+
+// Take removes p from the pending set (granting its lock) without resuming
+// it, if it is still enabled; Send resumes a taken event. Burst mode takes a
+// whole set first and resumes it afterwards, so that every decision is drawn
+// before any released goroutine runs.
+func (s *Sched) Take(p *Pending) bool {
+	s.mu.Lock()
+	defer s.mu.Unlock()
+	if !s.enabledLocked(p) {
+		return false
+	}
+	found := false
+	for i, q := range s.pending {
+		if q == p {
+			s.pending = append(s.pending[:i], s.pending[i+1:]...)
+			found = true
+			break
+		}
+	}
+	if !found {
+		return false
+	}
+	if p.Kind == "lock" {
+		s.held[p.Lock] = true
+		s.granted[p.Lock]++
+	}
+	return true
+}
+
+func (s *Sched) Send(p *Pending, v any) { p.resume <- v }
 
 // All returns every pending event, including blocked lock requests.
 func (s *Sched) All() []*Pending {
